@@ -143,12 +143,14 @@ func (c *Conn) Read(p []byte) (int, error) {
 		select {
 		case <-c.notify:
 		case <-tc:
+			Resume("simrt:read-wake:" + c.Name)
 			return 0, errTimeout
 		case <-c.closedCh:
 		}
 		if tm != nil {
 			tm.Stop()
 		}
+		Resume("simrt:read-wake:" + c.Name)
 	}
 }
 
@@ -209,8 +211,10 @@ type Listener struct {
 func (l *Listener) Accept() (net.Conn, error) {
 	select {
 	case c := <-l.ch:
+		Resume("simrt:accept-wake")
 		return c, nil
 	case <-l.closed:
+		Resume("simrt:accept-wake")
 		return nil, l.w.Net.ErrClosedListener
 	}
 }
